@@ -156,7 +156,7 @@ class Gen:
             n = r.randint(0, self.o.max_members)
             next_ = 0
             if self.o.allow_ext and r.random() < 0.5:
-                next_ = r.choice([0, 1, 1, 2, 3, 3, 7, 8, 9, 16, 17]) if r.random() < self.o.many_additions else r.choice([0, 1, 1, 2, 3])
+                next_ = r.choice([0, 1, 1, 2, 3, 3, 7, 8, 9, 16, 17, 7, 8, 9, 16, 63, 64, 65]) if r.random() < self.o.many_additions else r.choice([0, 1, 1, 2, 3])
             nm = self.names(n + next_)
             root = [self.member(depth, name=nm[i]) for i in range(n)]
             ext = None
